@@ -26,7 +26,12 @@ def mkcg(rng, mem_total, tmp, reclaim, total_us):
     cur = rng.randint(1 << 24, 1 << 32)
     file_ = rng.randint(0, cur // 2)
     anon = cur - file_ - rng.randint(0, cur // 8)
-    st = {"anon": anon, "file": file_, "active_file": file_ // 3, "inactive_file": file_ - file_ // 3,
+    # `file` counts the whole page cache: shmem (which lives on the anon LRU) and mlocked file pages (unevictable) are in it but
+    # are not reclaimable file cache; only active_file + inactive_file is
+    shmem = rng.choice([0, 0, file_ // 4, file_ // 2])
+    mlocked = rng.choice([0, 0, (file_ - shmem) // 3, file_ - shmem])
+    lru = file_ - shmem - mlocked
+    st = {"anon": anon, "file": file_, "shmem": shmem, "unevictable": mlocked, "active_file": lru // 3, "inactive_file": lru - lru // 3,
           "active_anon": anon // 2, "inactive_anon": anon - anon // 2, "pgscan": 5}
     lo = lambda: round(rng.choice([0.0, 0.01, 0.05, 0.09, 0.2, 1.5]), 2)
     return W.cgroup(current=cur, stat=W.memstat(st), minv=rng.choice([0, 0, 1 << 20, cur // 2]),
